@@ -46,8 +46,11 @@ def rnd_entry(rnd, cplx, dens=(1, 2, 4)):
 
 def gen(rnd):
     n = rnd.randint(2, 5); m = rnd.randint(1, n - 1); cplx = rnd.random() < 0.65
-    R = [[rnd_entry(rnd, cplx) for _ in range(m)] for _ in range(n)]
+    # the right and the left vectors may have different dtypes (real right basis with a complex dual basis and vice versa)
+    mixed = rnd.random() < 0.25; cR = cplx and not (mixed and rnd.random() < 0.5); cL = cplx if not mixed else not cR
+    R = [[rnd_entry(rnd, cR) for _ in range(m)] for _ in range(n)]
     kind = rnd.choice(["hermitian", "biorthogonal", "generic", "nearly-equal", "nearly-equal"])
+    if mixed: kind = "generic"; cplx = cL        # (a biorthogonal dual of a complex basis is complex: no mixed dtypes there)
     if kind == "hermitian": L = None
     elif kind == "generic": L = [[rnd_entry(rnd, cplx) for _ in range(m)] for _ in range(n)]
     elif kind == "nearly-equal":
@@ -60,7 +63,7 @@ def gen(rnd):
         Gi = ginv(G)
         if Gi is None: L = [[rnd_entry(rnd, cplx) for _ in range(m)] for _ in range(n)]; kind = "generic"
         else: L = mmul(X, madj(Gi)) if False else mmul(X, Gi)   # L = X G^{-1}  ⇒  R† L = G G^{-1} = 1 ⇒ L† R = 1
-    return n, m, cplx, kind, R, L
+    return n, m, (cR or cL), kind + (" (mixed dtypes)" if mixed else ""), R, L, cR, cL
 
 def ginv(G):
     m = len(G); A = [list(r) + [((Fraction(1), F0) if i == j else (F0, F0)) for j in range(m)] for i, r in enumerate(G)]
@@ -85,10 +88,11 @@ def main(seed, ncases, driver, out):
     for c in range(ncases):
         if skip(c): continue
         rnd = case_rnd(seed, c)
-        n, m, cplx, kind, R, L = gen(rnd)
+        n, m, cplx, kind, R, L, cR, cL = gen(rnd)
         dist[kind] = dist.get(kind, 0) + 1
         Rf = tofl(R); Lf = None if L is None else tofl(L)
-        if not cplx: Rf = Rf.real.copy(); Lf = None if Lf is None else Lf.real.copy()
+        if not cR: Rf = Rf.real.copy()
+        if Lf is not None and not cL: Lf = Lf.real.copy()
         Lm = R if L is None else L
         desc = {"n": n, "m": m, "complex": cplx, "kind": kind, "R": [[gs(z) for z in r] for r in R], "L": None if L is None else [[gs(z) for z in r] for r in L]}
         ident = [[((Fraction(1), F0) if a == b else (F0, F0)) for b in range(n)] for a in range(n)]
@@ -128,7 +132,7 @@ def main(seed, ncases, driver, out):
             # the spec itself: word [] must be 1 - R L†
             RL = mmul(R, madj(Lm)); spec = [[cadd(ident[a][b], (-RL[a][b][0], -RL[a][b][1])) for b in range(n)] for a in range(n)]
             if model_dense([]) != spec: fail("model-vs-spec: dense(P) != 1 - R L†")
-            if kind == "biorthogonal":
+            if kind.startswith("biorthogonal"):
                 D = model_dense([]);
                 if mmul(D, D) != D: fail("model: not idempotent although L†R = 1")
             A = [[rnd_entry(rnd, cplx) for _ in range(n)] for _ in range(n)]; Af = tofl(A) if cplx else tofl(A).real.copy()
@@ -143,7 +147,7 @@ def main(seed, ncases, driver, out):
                 cmp("vector @ " + tag, Yf[0] @ Q, [mmul(Yr, D)[0]])
                 cmp(tag + ".rmatvec", Q.rmatvec(Xf[:, 0]), [[r[0]] for r in mmul(madj(D), X)])
                 cmp(tag + " @ identity", Q @ np.eye(n), D)
-                if kind == "biorthogonal": cmp(tag + " @ " + tag + " @ matrix (idempotent)", Q @ (Q @ Xf), mmul(D, X))
+                if kind.startswith("biorthogonal"): cmp(tag + " @ " + tag + " @ matrix (idempotent)", Q @ (Q @ Xf), mmul(D, X))
                 if rnd.random() < 0.6:
                     Aop = sparse.csr_array(Af) if rnd.random() < 0.5 else Af
                     C = Q @ aslinearoperator(Aop) @ Q; DC = mmul(mmul(D, A), D)
